@@ -347,10 +347,21 @@ func genC08(tier string, seed uint64, run int) *Scenario {
 	r := rand.New(rand.NewPCG(seedFor(seed, "C08", run, "gen"), 1))
 	ecEvery := 10
 	proto, _ := protoForRun(r, tier, run, ecEvery)
+	if run%10 == 6 {
+		// a second ECDSA slot: the one at run%10 == 9 is always a channel probe (started parties only),
+		// this one runs under the drawn schedule, delivery before Start included
+		proto = []string{"ec-keygen", "ec-reshare", "ec-sign"}[(run/10)%3]
+	}
 	p := map[string]interface{}{"proto": proto, "model": true, "waiting": true, "wire": true}
 	nodes := fillProtoParams(r, tier, proto, p)
 	sc := &Scenario{Check: "C08", Kind: "proto", Seed: seed, Run: run, P: p}
 	sc.Sched = GenSched(r, nodes, true, true)
+	if run%20 == 6 {
+		sc.Sched.PreStart = true
+		if run%40 == 6 {
+			sc.Sched.Strategy = "prestart-flood"
+		}
+	}
 	if run%3 == 0 {
 		sc.Sched.FlipPct = 20
 		if sc.Sched.MaxFaults < 10 {
